@@ -72,6 +72,8 @@ pub trait Host {
     fn on_state(&mut self, id: usize, desc: Option<&str>, cmdline: Option<&str>, prev: u8, next: u8);
     /// `counts` per state (want, ready, queued, running, done, failed) and `total()`.
     fn on_update(&mut self, counts: [usize; 6], total: usize);
+    /// A ready step is about to be judged: the discovered dependencies n2 holds for it.
+    fn on_check(&mut self, id: usize, desc: Option<&str>, cmdline: Option<&str>, deps: &[String]);
     fn on_task_started(&mut self, id: usize, cmdline: &str);
     fn on_task_finished(&mut self, id: usize, cmdline: &str, term: &Termination, output: &[u8]);
 }
@@ -240,6 +242,16 @@ pub fn on_state(id: BuildId, build: &Build, prev: BuildState, next: BuildState) 
     });
 }
 
+pub fn on_check(graph: &crate::graph::Graph, id: BuildId) {
+    let build = &graph.builds[id];
+    let deps: Vec<String> = build
+        .discovered_ins()
+        .iter()
+        .map(|&f| graph.file(f).name.clone())
+        .collect();
+    with_host(|h| h.on_check(idx(id), build.desc.as_deref(), build.cmdline.as_deref(), &deps));
+}
+
 /// Progress wrapper that reports every notification to the host and then
 /// forwards it to the real console printer.
 pub struct Tee<'a>(pub &'a dyn Progress);
@@ -338,6 +350,20 @@ pub mod shim {
             pub fn set_len(&self, size: u64) -> io::Result<()> {
                 self.f.set_len(size)
             }
+            pub fn sync_all(&self) -> io::Result<()> {
+                self.f.sync_all()
+            }
+            pub fn sync_data(&self) -> io::Result<()> {
+                self.f.sync_data()
+            }
+            pub fn try_clone(&self) -> io::Result<File> {
+                self.f.try_clone().map(|f| File { f, db: self.db })
+            }
+        }
+        impl io::Seek for File {
+            fn seek(&mut self, pos: io::SeekFrom) -> io::Result<u64> {
+                io::Seek::seek(&mut self.f, pos)
+            }
         }
         impl io::Read for File {
             fn read(&mut self, b: &mut [u8]) -> io::Result<usize> {
@@ -395,6 +421,22 @@ pub mod shim {
             }
             pub fn append(&mut self, v: bool) -> &mut Self {
                 self.0.append(v);
+                self
+            }
+            pub fn write(&mut self, v: bool) -> &mut Self {
+                self.0.write(v);
+                self
+            }
+            pub fn create(&mut self, v: bool) -> &mut Self {
+                self.0.create(v);
+                self
+            }
+            pub fn create_new(&mut self, v: bool) -> &mut Self {
+                self.0.create_new(v);
+                self
+            }
+            pub fn truncate(&mut self, v: bool) -> &mut Self {
+                self.0.truncate(v);
                 self
             }
             pub fn open<P: AsRef<Path>>(&self, p: P) -> io::Result<File> {
